@@ -391,18 +391,18 @@ def observe(pep, ret, held, exact=False, with_native=True, extra_evals=True):
     for it, o in items:
         try:
             v = o.eval_dual()
-            if isinstance(o, Constraint):
-                duals.append([fx(v)])
-            else:
-                duals.append([fx(x) for x in np.asarray(v, dtype=float).reshape(-1)])
-        except ValueError:
+            duals.append([fx(x) for x in np.asarray(v, dtype=float).reshape(-1)])     # a scalar gives one entry
+        except Exception:
             duals.append([])
     out["duals"] = duals
     lmi_mineig = []
     for it, o in items:
         if isinstance(o, PSDMatrix) and o._dual_variable_value is not None:
-            D = np.asarray(o._dual_variable_value, dtype=float)
-            lmi_mineig.append(fx(np.linalg.eigvalsh((D + D.T) / 2).min()))
+            try:
+                D = np.asarray(o._dual_variable_value, dtype=float)
+                lmi_mineig.append(fx(np.linalg.eigvalsh((D + D.T) / 2).min()))
+            except Exception:
+                lmi_mineig.append(-CLAMP)
         else:
             lmi_mineig.append(0)
     out["dual_mineig"] = lmi_mineig                   # sensor (numpy): smallest eigenvalue of each LMI multiplier
@@ -443,14 +443,12 @@ def observe(pep, ret, held, exact=False, with_native=True, extra_evals=True):
         for it, o in items:
             try:
                 v = o.eval()
-                if isinstance(o, Constraint):
-                    item_evals.append([fx(v)]); item_mineig.append(0)
+                A = np.asarray(v, dtype=float)
+                item_evals.append([fx(x) for x in A.reshape(-1)])
+                if isinstance(o, Constraint) or A.ndim != 2 or A.shape[0] != A.shape[1]:
+                    item_mineig.append(0)
                 else:
-                    A = np.asarray(v, dtype=float)
-                    item_evals.append([fx(x) for x in A.reshape(-1)])
                     item_mineig.append(fx(np.linalg.eigvalsh((A + A.T) / 2).min()))
-            except ValueError:
-                item_evals.append([]); item_mineig.append(0)
             except Exception as e:
                 item_evals.append([]); item_mineig.append(0)
         out["item_evals"], out["item_mineig"] = item_evals, item_mineig
